@@ -951,6 +951,22 @@ def _line_map(base, cur):
                 del anchor[bi]
                 free_cs.discard(near[0])
                 moved += 1
+        # ... or is a match arm whose pattern was respelled (`Ordering::Greater => X` -> `_ => X`, arms merged / split): the arm with
+        # the same body, if there is exactly one such free arm on either side
+        def arm_body(k):
+            return k.split(' => ', 1)[1] if ' => ' in k else None
+        for bi in fb:
+            if bi in bmap:
+                continue
+            bb = arm_body(bs[bi])
+            if bb is None or len(bb) < 6:
+                continue
+            cands = [ci for ci in fc if ci in free_cs and arm_body(cs[ci]) == bb]
+            if len(cands) == 1 and sum(1 for b2 in fb if b2 not in bmap and arm_body(bs[b2]) == bb) == 1:
+                bmap[bi] = ('mod', cands[0])
+                del anchor[bi]
+                free_cs.discard(cands[0])
+                moved += 1
     # functions into which the change inserted code lines (new statements): their annotations may no longer fit
     _line_map.restructured = []
     for lo, hi, clo, chi in fn_pairs:
